@@ -166,6 +166,28 @@ func c14Oracle(q *gen.RefQuote, p *gen.PolicyFields, noHeader, noBody, nilPolicy
 	if mv.Miss == "" && !vv.Accepted() {
 		return "converted-rejects-conforming", "validation under converted options gives the verdict the message literally describes", vv.String()
 	}
+	// The caller adjusts the options it got (pins its request's nonce, raises a minimum, ...) and the same message is
+	// converted again, as for the next request: the new result describes the message, not the earlier caller's edits.
+	opts.TdQuoteBodyOptions.ReportData = bytesOfLen(64, 0xee)
+	opts.TdQuoteBodyOptions.MrTd = bytesOfLen(48, 0xdd)
+	opts.TdQuoteBodyOptions.AnyMrTd = append(opts.TdQuoteBodyOptions.AnyMrTd, bytesOfLen(48, 0xcc))
+	opts.TdQuoteBodyOptions.Rtmrs = [][]byte{bytesOfLen(48, 1), bytesOfLen(48, 2), bytesOfLen(48, 3), bytesOfLen(48, 4)}
+	opts.HeaderOptions.MinimumQeSvn, opts.HeaderOptions.MinimumPceSvn = 65535, 65535
+	opts.HeaderOptions.QeVendorID = bytesOfLen(16, 0xbb)
+	var opts2 *validate.Options
+	v2 := gen.Call(func() error {
+		var err error
+		opts2, err = validate.PolicyToOptions(pol)
+		return err
+	})
+	if !v2.Accepted() {
+		return "second-conversion-differs", "converting a message yields options that describe that message, whatever was done with the result of an earlier conversion", "first conversion succeeded, second: " + v2.String()
+	}
+	m2 := q.ToProto()
+	vv2 := gen.Call(func() error { return validate.TdxQuote(m2, opts2) })
+	if vv2.Panicked() || vv2.Accepted() != vv.Accepted() {
+		return "second-conversion-differs", "converting a message yields options that describe that message, whatever was done with the result of an earlier conversion", fmt.Sprintf("first conversion: validation %s; the caller then changed the options it had received; second conversion of the same message: validation %s", vv, vv2)
+	}
 	return "", "", ""
 }
 
